@@ -1,6 +1,6 @@
 """C03 - decorating a callable never changes what it does.
 
-Theorem side: Props/C03.v over Wrap/{Protocol,GenWrap,CoroWrap,GenWrapFun,GenWrapRepaired}.v.
+Theorem side: Props/C03.v over Wrap/{Protocol,GenWrap,CoroWrap,CoroWrapAwait,GenWrapFun,GenWrapRepaired}.v.
 The generator wrapper model has one switch (`Definition repo_forwards` in Wrap/GenWrap.v: does the
 wrapper forward throw()/close()?); the correspondence check ties that line to the code.
 Tie: correspondence.  Random / exhaustive table-driven real generators, coroutines,
@@ -27,8 +27,9 @@ THEOREMS = [
     'C03_async_generator_operations', 'C03_async_generator_full',
     'C03_generator_current',
     'C03_nonforwarding_wrapper_refuted', 'C03_nonforwarding_wrapper_witnesses', 'C03_nonforwarding_wrapper_partial',
+    'C03_types_coroutine_awaited', 'C03_types_coroutine_awaited_nonvacuous',
     'C03_timer_harmless', 'C03_timer_harmless_kernprof', 'C03_timer_nonvacuous',
-    'C03_metadata_names', 'C03_metadata_partial', 'C03_metadata_refuted', 'C03_metadata_nonvacuous',
+    'C03_metadata', 'C03_metadata_names', 'C03_metadata_nonvacuous',
 ]
 LEVEL = 'proof'
 
@@ -42,7 +43,7 @@ KINDS = ['gen', 'coro', 'agen']
 # generator function, so the generator protocol applies (model: KGen); its result may ALSO be awaited (stream `await`)
 PKINDS = ['gen', 'coro', 'agen', 'tgen']
 COQ_KIND = {'gen': 'KGen', 'coro': 'KCoro', 'agen': 'KAsync', 'tgen': 'KGen'}
-F_TCORO = 'C03-types-coroutine-not-awaitable'
+F_TCORO = 'C03-types-coroutine-not-awaitable'      # fixed in /repo by f61df74: no longer a classifier target
 THROWN = [1, 2, 3, 4, 7]
 GE = 3
 
@@ -175,24 +176,14 @@ def py_spec_protocol(kind, table, ops, wobs, robs):
 
 
 def py_spec_await(kind, table, ops, wobs, robs):
-    """await path (a coroutine awaits the callable's result): delegation by `await` has the two limits of
-    C03_coroutine whatever is awaited, so the same hypotheses decide whether the case is judged"""
-    return (not coro_hyp(table, ops)) or erase(wobs) == robs
+    """await path (a coroutine awaits the callable's result; both the decorated and the original callable are
+    awaited the same way): judged whenever the body honours the close contract"""
+    return (not table_honours_close(table)) or erase(wobs) == robs
 
 
 def classify_await(kind, ops, wobs, robs):
-    """signature of C03-types-coroutine-not-awaitable: a decorated @types.coroutine generator function is awaited;
-    the first operation that would start it raises TypeError (object generator can't be used in 'await'
-    expression) and the body never runs, where the original's body starts"""
-    if kind != 'tgen':
-        return None
-    w = erase(wobs)
-    for ws, rs in zip(w[0], robs[0]):
-        if ws == rs:
-            continue
-        if ws == [4006] and 100 in rs[:-1]:
-            return F_TCORO
-        return None
+    """no difference on the await path is a known finding (C03-types-coroutine-not-awaitable is fixed in /repo by
+    f61df74: a regression comes out as VIOLATION)"""
     return None
 
 
@@ -420,14 +411,7 @@ def py_spec_meta(o):
 
 
 def classify_meta(o):
-    """signature of C03-types-coroutine-not-awaitable on metadata: the original is a @types.coroutine generator
-    function, what the profiler returns is a plain generator function (flag CO_ITERABLE_COROUTINE lost), and
-    nothing else differs"""
-    if 'driver_error' in o:
-        return None
-    if o['orig']['kind'] == 'tgen' and o['got']['kind'] == 'gen' and \
-            all(o['got'][k] == o['orig'][k] for k in META_KEYS if k != 'kind'):
-        return F_TCORO
+    """no metadata difference is a known finding (C03-types-coroutine-not-awaitable fixed by f61df74)"""
     return None
 
 
@@ -630,6 +614,51 @@ def eval_protocol(recs, res, cov, use_coq=True):
     return idx
 
 
+def eval_await(arecs, res, cov, use_coq=True):
+    rows, idx = [], []
+    for j, r in enumerate(arecs):
+        K = COQ_KIND[r['kind']]
+        T = coq_table(r['table'])
+        O = core.coq_list([coq_op(o) for o in r['ops']])
+        for which in ('ref', 'lp', 'cp'):
+            rows.append('(acase_ok %s %s %s %s %s %s)' % (K, core.coq_bool(which != 'ref'), T, O, coq_zobs(r[which]), coq_zobs(r['ref'])))
+            idx.append((j, which))
+    mism, coq_fail = [], set()
+    if use_coq:
+        ab, aspans = pack_shards(rows)
+        for k, (sres, (lo, hi)) in enumerate(zip(core.run_shards('c03a', HEADER, ab), aspans)):
+            if sres[0] != 'ok' or len(sres[1]) != 2:
+                res.infra_errors.append('await shard %d failed: %s' % (k, str(sres[1])[-600:]))
+                continue
+            mism += [lo + i for i in sres[1][0]]
+            coq_fail |= {lo + i for i in sres[1][1]}
+    for i in mism:
+        j, which = idx[i]
+        r = arecs[j]
+        res.mismatches.append(dict(case=dict(stream='await', kind=r['kind'], table=r['table'], ops=r['ops'],
+                                             prof=None if which == 'ref' else which, how=r['how']), impl=r[which],
+                                   model='differs: await_of (Wrap/CoroWrap.v) over %s' % ('the unwrapped body' if which == 'ref' else 'the wrapper model')))
+    per_a = {}
+    judged = 0
+    for i, (j, which) in enumerate(idx):
+        r = arecs[j]
+        if which == 'ref':
+            judged += table_honours_close(r['table'])
+            continue
+        ok = py_spec_await(r['kind'], r['table'], r['ops'], r[which], r['ref']) and not any(r['leaked'])
+        if ok and i not in coq_fail:
+            continue
+        fid = classify_await(r['kind'], r['ops'], r[which], r['ref'])
+        per_a[fid] = per_a.get(fid, 0) + 1
+        if per_a[fid] <= (3 if fid else 30):
+            res.spec_fails.append(dict(case=dict(stream='await', kind=r['kind'], table=r['table'], ops=r['ops'], prof=which, how=r['how']),
+                                       impl=dict(wrapped=r[which], original=r['ref']),
+                                       why='awaiting the decorated callable differs from awaiting the original (Coq spec: %s, python spec: %s)'
+                                           % ((i in coq_fail) if use_coq else 'not evaluated', not ok), finding=fid))
+    cov['await_spec_fails_by_finding'] = {str(k): v for k, v in per_a.items()}
+    cov['await_triples_judged_honours_close'] = judged
+
+
 def eval_extra(extra, out, res, cov, use_coq=True):
     # nest: Coq rows for the function cases
     rows, where = [], []
@@ -783,20 +812,9 @@ def run(tier, seed):
                                    why='a profiler was left enabled after the wrapped object was dropped', finding=None))
     eval_protocol(recs, res, cov, use_coq=model_ok)
     eval_extra(extra, out, res, cov, use_coq=model_ok)
-    # await path (python-side predicate only: wrapped-awaited vs original-awaited)
+    # await path: a coroutine awaits the callable's result (model: Wrap/CoroWrap.v await_of over the wrapper models)
     arecs = run_protocol(impl, CANON_AWAIT + gen_await(tier, rnd), via='await')
-    per_a = {}
-    for r in arecs:
-        for which in ('lp', 'cp'):
-            if py_spec_await(r['kind'], r['table'], r['ops'], r[which], r['ref']) and not any(r['leaked']):
-                continue
-            fid = classify_await(r['kind'], r['ops'], r[which], r['ref'])
-            per_a[fid] = per_a.get(fid, 0) + 1
-            if per_a[fid] <= (3 if fid else 30):
-                res.spec_fails.append(dict(case=dict(stream='await', kind=r['kind'], table=r['table'], ops=r['ops'], prof=which, how=r['how']),
-                                           impl=dict(wrapped=r[which], original=r['ref']),
-                                           why='awaiting the decorated callable differs from awaiting the original', finding=fid))
-    cov['await_spec_fails_by_finding'] = {str(k): v for k, v in per_a.items()}
+    eval_await(arecs, res, cov, use_coq=model_ok)
     # kernprof's interval timer
     tmp = core.SCRATCH_ROOT / 'tmp' / 'c03kern'
     kcases = gen_kern(tier, rnd)
